@@ -56,6 +56,8 @@ type Msg struct {
 	VD       []VD   `json:"vd,omitempty"`
 	Salt     string `json:"salt,omitempty"`
 	Round    uint64 `json:"round,omitempty"`
+	AdminUpper  bool `json:"admin_upper,omitempty"`  // the admin to add / remove is spelled in upper-case bech32
+	SenderUpper bool `json:"sender_upper,omitempty"` // the sender is spelled in upper-case bech32 (same account, same signature)
 }
 
 type Env struct {
@@ -362,17 +364,29 @@ func (e *Exec) toSdkMsg(m Msg) sdk.Msg {
 		}
 		return a
 	}
+	snd := func() string {
+		if m.SenderUpper {
+			return strings.ToUpper(acct(m.Sender).Bech())
+		}
+		return acct(m.Sender).Bech()
+	}
+	adm := func() string {
+		if m.AdminUpper {
+			return strings.ToUpper(acct(m.Admin).Bech())
+		}
+		return acct(m.Admin).Bech()
+	}
 	switch m.Kind {
 	case "create_tenant":
-		return settlementtypes.NewMsgCreateTenant(acct(m.Sender).Bech(), m.Denom, m.Period)
+		return settlementtypes.NewMsgCreateTenant(snd(), m.Denom, m.Period)
 	case "create_tenant_mc":
 		return settlementtypes.NewMsgCreateTenantWithMintableContract(acct(m.Sender).Bech(), m.Denom, m.Period, "")
 	case "add_admin":
-		return settlementtypes.NewMsgAddTenantAdmin(acct(m.Sender).Bech(), m.Tid, acct(m.Admin).Bech())
+		return settlementtypes.NewMsgAddTenantAdmin(snd(), m.Tid, adm())
 	case "remove_admin":
-		return settlementtypes.NewMsgRemoveTenantAdmin(acct(m.Sender).Bech(), m.Tid, acct(m.Admin).Bech())
+		return settlementtypes.NewMsgRemoveTenantAdmin(snd(), m.Tid, adm())
 	case "update_period":
-		return settlementtypes.NewMsgUpdateTenantPayoutPeriod(acct(m.Sender).Bech(), m.Tid, m.Period)
+		return settlementtypes.NewMsgUpdateTenantPayoutPeriod(snd(), m.Tid, m.Period)
 	case "deposit":
 		return settlementtypes.NewMsgDepositToTreasury(acct(m.Sender).Bech(), m.Tid, sdk.Coin{Denom: m.Denom, Amount: amt()})
 	case "record":
@@ -380,7 +394,7 @@ func (e *Exec) toSdkMsg(m Msg) sdk.Msg {
 		return settlementtypes.NewMsgRecord(acct(m.Sender).Bech(), m.Tid, string(reqBytes(m)), sdk.Coin{Denom: m.Denom, Amount: amt()}, m.Chain, m.Contract, m.Tok, "")
 	case "cancel":
 		e.noteReq(m.Tid, reqBytes(m))
-		return settlementtypes.NewMsgCancel(acct(m.Sender).Bech(), m.Tid, string(reqBytes(m)))
+		return settlementtypes.NewMsgCancel(snd(), m.Tid, string(reqBytes(m)))
 	case "prevote":
 		sum := sha256.Sum256([]byte(m.Commit))
 		hash := fmt.Sprintf("%X", sum[:])
